@@ -11,7 +11,8 @@ RULE = ("histories over 1-4 resources with 0-3 isolation rules each (thresholds 
         "(2^32-inflight .. 2^32-1), a quarter of the entries without any batch option (default 1), resource types varied per entry, exits in "
         "random order incl. Exit(WithError), TraceError before/after exit, double exits, two goroutines exiting one entry at once (dexit), "
         "exits of blocked/unknown ids, gauge reads, rule reloads mid-history with live entries (append a stricter/looser rule, remove, "
-        "reorder, change, same, fresh), and schedule ops (par/sched: 1-6 goroutines parked at chain.between-check-and-stat, random interleavings of "
+        "reorder, change, same, fresh), LoadRulesOfResource / ClearRulesOfResource on resources with and without rules (repeated, followed by "
+        "traffic on the others), virtual clock steps (mostly backwards), and schedule ops (par/sched: 1-6 goroutines parked at chain.between-check-and-stat, random interleavings of "
         "check/record/exit steps); non-trivial = at least one pass, one isolation block and one exit that is not of the newest live entry; "
         "distinct by (rules, op-kind/boundary-class sequence); plus every short schedule over 2-4 threads, and soak cases (2-16 real "
         "goroutines x 500-10000 Entry/Exit rounds, GOMAXPROCS=NumCPU, no hooks) judged by gauge-returns / N+(G-1) / no-rejection-with-"
@@ -33,6 +34,7 @@ class Sim:
         self.blocked = []
         self.exited = []
         self.next_id = 1
+        self.clock = 10000
 
     def infl(self, res):
         return sum(1 for r in self.live.values() if r == res)
@@ -184,8 +186,31 @@ def gen_case(rng, cid):
                 if rng.random() < 0.25:
                     ops.append(f"trace {i}")
                 ops.append(f"exit {i} err" if z < 0.45 else f"exit {i}")
-        elif x < 0.81:
+        elif x < 0.765:
             ops.append(f"conc {res}")
+        elif x < 0.785:
+            # the virtual clock moves, mostly backwards (offset from the case start; the accounting must not depend on time)
+            sim.clock = rng.choice([0, 1, max(sim.clock - rng.choice([1, 500, 5000]), 0), max(sim.clock - 1, 0), rng.randint(0, 20000), 20000])
+            ops.append(f"clock {sim.clock}")
+            cls.append("clock")
+        elif x < 0.81:
+            # per-resource rule updates, also on resources that have no rules, repeated, followed by traffic on the others
+            r = rng.choice(RES)
+            y = rng.random()
+            if y < 0.5:
+                ops.append(f"clearres {r}")
+                if rng.random() < 0.3:
+                    ops.append(f"clearres {rng.choice(RES)}")
+                ths = []
+                cls.append("clearres" + ("" if r in sim.rules else "-ruleless"))
+            else:
+                ths = [rng.choice(THR_SMALL + [0]) if rng.random() < 0.85 else rng.choice(THR_EDGE) for _ in range(rng.choice([0, 1, 1, 2, 3]))]
+                ops.append("loadres " + r + "".join(f" {t}" for t in ths))
+                cls.append("loadres")
+            sim.toks = [(a, t) for a, t in getattr(sim, "toks", []) if a != r] + [(r, t) for t in ths]
+            sim.rules.pop(r, None)
+            if [t for t in ths if t]:
+                sim.rules[r] = [t for t in ths if t]
         elif x < 0.84:
             ids = list(sim.live) + sim.exited[-3:] + sim.blocked[-2:]
             ops.append(f"trace {rng.choice(ids) if ids else 7}")
@@ -244,6 +269,8 @@ def densify(ops, rng):
         t = o.split()
         if t[0] == "load":
             names.update(a.split(":")[0] for a in t[1:])
+        elif t[0] in ("loadres", "clearres"):
+            names.add(t[1])
         elif t[0] in ("entry", "sched"):
             names.add(t[2])
         elif t[0] == "soak":
@@ -293,8 +320,8 @@ def nontrivial(case, impl):
             npass += sum(1 for b in body if b in ("p", "x"))
             nblock += sum(1 for b in body if b.startswith("b"))
             kinds.append("S" + "".join(b[0] for b in body))
-        elif t[0] == "load":
-            kinds.append("L")
+        elif t[0] in ("load", "loadres", "clearres", "clock"):
+            kinds.append(t[0][0] + t[0][-1])
     if npass and nblock and ooo:
         return hash((tuple(o for o in case.ops if o.startswith("load")), "".join(kinds), case.tags))
     return None
